@@ -79,10 +79,15 @@ NameBeforeAt(bytes, pos) ==
        ELSE LET rest == SubSeq(win, sl + 1, Len(win))
                 stop == SelectInSeq(rest, LAMBDA b : ~IsRegular(b))
             IN IF stop = 0 THEN rest ELSE SubSeq(rest, 1, stop - 1)
-NamesBefore(bytes, digits) ==
-    LET pat == [i \in 1..Len(digits) |-> 48 + digits[i]]
-        occ == {i \in 1..(Len(bytes) - Len(pat) + 1) : SubSeq(bytes, i, i + Len(pat) - 1) = pat}
-    IN {NameBeforeAt(bytes, i) : i \in occ} \ {<<>>}
+\* start positions of the huge numbers spelled in the bytes: digit runs of 10 to 19 digits
+BigNumberStarts(bytes) ==
+    LET r == FoldLeft(LAMBDA acc, i :
+                 IF IsDigit(bytes[i]) THEN (IF acc.st = 0 THEN [acc EXCEPT !.st = i] ELSE acc)
+                 ELSE (IF acc.st # 0 /\ i - acc.st >= 10 /\ i - acc.st <= 19 THEN [out |-> acc.out \cup {acc.st}, st |-> 0]
+                       ELSE [acc EXCEPT !.st = 0]),
+               [out |-> {}, st |-> 0], [i \in 1..Len(bytes) |-> i])
+    IN r.out
+NamesOfBigNumbers(bytes) == {NameBeforeAt(bytes, i) : i \in BigNumberStarts(bytes)} \ {<<>>}
 
 \* #XX escapes of a name as spelled in a file
 Unescape(raw) ==
@@ -98,7 +103,7 @@ Unescape(raw) ==
 \* i64 range - beyond it lopdf reads a real) are the candidates; one is named by a fixed priority so that the signature
 \* does not depend on which other entries were also mutated: the widths of a cross-reference stream are allocated
 \* without a check (abort), the predictor geometry with one (handled refusal).
-\* Whole files: the refused size is looked up in the bytes and named by the keys it stands under, same priority.
+\* Whole files: the huge numbers spelled in the bytes, named by the keys they stand under, same priority.
 I64Max == <<9, 2, 2, 3, 3, 7, 2, 0, 3, 6, 8, 5, 4, 7, 7, 5, 8, 0, 7>>
 Predictors == <<"Columns", "Colors", "BitsPerComponent", "Ppr", "Bpp">>
 Others == <<"Size", "Index", "N", "First", "Length", "Prev", "Predictor", "Width", "Height", "H", "BPC", "other">>
@@ -107,8 +112,7 @@ AskedFor(rec) ==
     LET names == IF rec.dict # <<>>
                  THEN LET ints == DictInts(rec.dict) IN
                       {NameString(ints[i].name) : i \in {j \in 1..Len(ints) : Len(ints[j].digits) >= 10 /\ DigitsLE(ints[j].digits, I64Max)}}
-                 ELSE IF rec.refused # <<>> /\ rec.bytes # <<>>
-                      THEN {NameString(Unescape(n)) : n \in NamesBefore(rec.bytes, rec.refused)}
+                 ELSE IF rec.bytes # <<>> THEN {NameString(Unescape(n)) : n \in NamesOfBigNumbers(rec.bytes)}
                  ELSE {}
         pr == Priority(rec.kind)
         hit == SelectInSeq(pr, LAMBDA n : n \in names)
